@@ -358,6 +358,20 @@ def _sqlite_dedup(ctx):
         ctx.ob("R7", st, f"the repeat test compares the recorded text itself (`{c_[:60]}`) with the previous one", c_ == R, key="sqlite-append|dedup-compares-other-than-recorded-text", where=loc(fn), detail=None if c_ == R else f"recorded: `{R}`; compared: `{c_}` - two different commands can agree on the compared form")
     for v_ in sorted(remembered):
         ctx.ob("R7", st, f"`{last_attr_name}` remembers the recorded text (`{v_[:60]}`)", v_ == R, key="sqlite-append|remembers-other-than-recorded-text", where=loc(fn), detail=None if v_ == R else f"recorded: `{R}`; remembered: `{v_}`")
+    # "the previous entry" must be an entry: a method that empties the in-memory record (clear) also forgets the remembered
+    # text - otherwise the first command after `history clear` is dropped as a repeat of one that no longer exists
+    from ..engine.loader import class_methods
+
+    for nm, m in class_methods(sm.cls("SqliteHistory")).items():
+        if nm in ("__init__", "append"):
+            continue
+        mcfg = None
+        for a in walk_local(m):
+            if isinstance(a, ast.Assign) and any(unparse(t) == "self.inps" for t in a.targets) and isinstance(a.value, (ast.List, ast.Call)) and (not getattr(a.value, "elts", None)) and (not isinstance(a.value, ast.Call) or (call_name(a.value) == "list" and not a.value.args)):
+                mcfg = mcfg or CFG(m)
+                resets = [n for n in mcfg.nodes if n.kind == "stmt" and isinstance(n.ast, ast.Assign) and any(unparse(t) == last_attr_name for t in n.ast.targets)]
+                ok = bool(resets) and mcfg.must_pass(mcfg.entry, lambda n_: n_ in resets, exits=("exit",))[0]
+                ctx.ob("R7", f"{SQL}:SqliteHistory.{nm}", f"empties the in-memory record and forgets `{last_attr_name}` with it (the next command has no previous entry to repeat)", ok, key=f"SqliteHistory.{nm}|remembered-text-survives-clear", where=loc(a))
 
 
 def _read_provenance(ctx):
